@@ -742,7 +742,7 @@ Lemma invalid_refused id : valid_id id = false ->
   (forall lk0 lk1 dir n cwd outs, job_paths lk0 lk1 dir id n cwd outs = JBadId)
   /\ (forall root, cache_file root id = None)
   /\ (forall s j, assign s j id = (s, AErr))
-  /\ (forall b c, prepare b id c = (b, None)).
+  /\ (forall b c n, prepare b id c n = (b, None)).
 Proof.
   intro H. repeat split; intros.
   - unfold job_paths. rewrite H. reflexivity.
@@ -850,15 +850,14 @@ Proof.
   intro HI. apply bdel_In in HI as [HI _]. contradiction.
 Qed.
 
-Lemma blookup_bset k v l : blookup k (bset k v l) = Some v.
-Proof. unfold bset. simpl. rewrite bytes_eqb_refl. reflexivity. Qed.
-
-(* prepare_overlay_dirs: what a successful call guarantees *)
-Lemma prepare_spec b id ic b' nm : prepare b id ic = (b', Some nm) ->
+(* prepare_overlay_dirs: what a successful call guarantees.  Freshness comes from THE GUARD (create_dir of the
+   build directory fails when it exists): the counter alone does not give it, since it restarts at 1 whenever the
+   builder has forgotten the toolchain. *)
+Lemma prepare_spec b id ic n b' nm : prepare b id ic n = (b', Some nm) ->
   valid_id id = true
   /\ ~ In nm (live b)
   /\ live b' = nm :: live b
-  /\ exists k, nm = build_name id k /\ blookup id (dirmap b') = Some k
+  /\ exists k, nm = build_name id k
                /\ (forall c, blookup id (dirmap b) = Some c -> In id (unpacked b) -> k = c + 1)
                /\ (blookup id (dirmap b) = None \/ ~ In id (unpacked b) -> k = 1).
 Proof.
@@ -867,38 +866,36 @@ Proof.
   - destruct (bmem id (unpacked b)) eqn:Em.
     + (* known toolchain: the counter is incremented *)
       cbn [dirmap unpacked live].
-      destruct (N.eqb_spec (c + 1) 0) as [E0|N0]; [lia|].
       destruct (c + 1) as [|pc] eqn:Ec; [lia|]. rewrite <- Ec in *.
       destruct (bmem (build_name id (c + 1)) (live b)) eqn:Eb; [discriminate|].
       intro H. inversion H; subst. clear H. cbn [dirmap unpacked live].
       split; [reflexivity|]. split.
       { intro HI. apply bmem_In in HI. congruence. }
       split; [reflexivity|]. exists (c + 1). repeat split.
-      * apply blookup_bset.
       * intros c' Hc' _. congruence.
       * intros [Hn|Hn]; [discriminate|]. exfalso. apply Hn. apply bmem_In. exact Em.
     + destruct ic; simpl; [|discriminate].
+      destruct (prune n (bset id 1 (dirmap b)) (id :: unpacked b)) as [m u].
       cbn [dirmap unpacked live].
       destruct (bmem (build_name id 1) (live b)) eqn:Eb; [discriminate|].
       intro H. inversion H; subst. clear H. cbn [dirmap unpacked live].
       split; [reflexivity|]. split.
       { intro HI. apply bmem_In in HI. congruence. }
       split; [reflexivity|]. exists 1. repeat split.
-      * apply blookup_bset.
-      * intros c' _ Hin. apply bmem_In in Hin. congruence.
+      intros c' _ Hin. apply bmem_In in Hin. congruence.
   - destruct (bmem id (unpacked b)) eqn:Em; [discriminate|].
     destruct ic; simpl; [|discriminate].
+    destruct (prune n (bset id 1 (dirmap b)) (id :: unpacked b)) as [m u].
     cbn [dirmap unpacked live].
     destruct (bmem (build_name id 1) (live b)) eqn:Eb; [discriminate|].
     intro H. inversion H; subst. clear H. cbn [dirmap unpacked live].
     split; [reflexivity|]. split.
     { intro HI. apply bmem_In in HI. congruence. }
     split; [reflexivity|]. exists 1. repeat split.
-    + apply blookup_bset.
-    + intros c' Hc' _. discriminate.
+    intros c' Hc' _. discriminate.
 Qed.
 
-Lemma prepare_live b id ic b' o : prepare b id ic = (b', o) ->
+Lemma prepare_live b id ic n b' o : prepare b id ic n = (b', o) ->
   match o with Some nm => live b' = nm :: live b /\ ~ In nm (live b) | None => live b' = live b end.
 Proof.
   destruct o as [nm|].
@@ -909,18 +906,39 @@ Proof.
       * cbn [dirmap unpacked live]. destruct (c + 1) eqn:Ec; [lia|]. rewrite <- Ec.
         destruct (bmem (build_name id (c + 1)) (live b)); intro H; inversion H; reflexivity.
       * destruct ic; simpl.
-        -- cbn [dirmap unpacked live]. destruct (bmem (build_name id 1) (live b)); intro H; inversion H; reflexivity.
+        -- destruct (prune n (bset id 1 (dirmap b)) (id :: unpacked b)) as [m u].
+           cbn [dirmap unpacked live]. destruct (bmem (build_name id 1) (live b)); intro H; inversion H; reflexivity.
         -- intro H; inversion H; reflexivity.
     + destruct (bmem id (unpacked b)); [intro H; inversion H; reflexivity|].
       destruct ic; simpl.
-      * cbn [dirmap unpacked live]. destruct (bmem (build_name id 1) (live b)); intro H; inversion H; reflexivity.
+      * destruct (prune n (bset id 1 (dirmap b)) (id :: unpacked b)) as [m u].
+        cbn [dirmap unpacked live]. destruct (bmem (build_name id 1) (live b)); intro H; inversion H; reflexivity.
       * intro H; inversion H; reflexivity.
+Qed.
+
+(* the guard at work: when the name the counter yields belongs to a live job, nothing is handed out *)
+Lemma prepare_guard b id ic n b' o : prepare b id ic n = (b', o) ->
+  forall k, In (build_name id k) (live b) ->
+    (forall c, blookup id (dirmap b) = Some c -> In id (unpacked b) -> k = c + 1) ->
+    (blookup id (dirmap b) = None \/ ~ In id (unpacked b) -> k = 1) ->
+    o = None.
+Proof.
+  intros H k Hlive Hk1 Hk2. destruct o as [nm|]; [|reflexivity]. exfalso.
+  apply prepare_spec in H as (Hv & Hn & _ & k' & -> & H1 & H2).
+  assert (k' = k) as ->.
+  { destruct (blookup id (dirmap b)) as [c|] eqn:El.
+    - destruct (bmem id (unpacked b)) eqn:Em.
+      + apply bmem_In in Em. rewrite (H1 c eq_refl Em), (Hk1 c eq_refl Em). reflexivity.
+      + assert (~ In id (unpacked b)) as Hni by (intro HI; apply bmem_In in HI; congruence).
+        rewrite H2, Hk2; auto.
+    - rewrite H2, Hk2; auto. }
+  contradiction.
 Qed.
 
 Lemma bstep_NoDup b o : NoDup (live b) -> NoDup (live (fst (bstep b o))).
 Proof.
-  intro H. destruct o as [id ic|nm|id]; simpl.
-  - destruct (prepare b id ic) as [b' [nm|]] eqn:E; apply prepare_live in E; simpl.
+  intro H. destruct o as [id ic n|nm|id]; simpl.
+  - destruct (prepare b id ic n) as [b' [nm|]] eqn:E; apply prepare_live in E; simpl.
     + destruct E as [-> Hn]. constructor; assumption.
     + rewrite E. exact H.
   - apply bdel_NoDup. exact H.
@@ -970,95 +988,191 @@ Proof.
   destruct (N.eqb_spec j j') as [->|NE]; [intro H; inversion H; left; reflexivity | intro H; right; auto].
 Qed.
 
-Lemma prepare_ok b id ic : builder_ok b -> builder_ok (fst (prepare b id ic)).
+Lemma bdel_Forall (P : bytes -> Prop) k l : Forall P l -> Forall P (bdel k l).
+Proof.
+  induction 1 as [|x l Hx Hl IH]; simpl; [constructor|].
+  destruct (bytes_eqb k x); [exact IH | constructor; assumption].
+Qed.
+
+Lemma bupd_Forall (P : bytes * N -> Prop) k v l :
+  (forall k' v', P (k', v') -> P (k', v)) -> Forall P l -> Forall P (bupd k v l).
+Proof.
+  intro HP. induction 1 as [|[k' v'] l Hx Hl IH]; simpl; [constructor|].
+  destruct (bytes_eqb k k'); constructor; eauto.
+Qed.
+
+Lemma Forall_skipn {A} (P : A -> Prop) k : forall l, Forall P l -> Forall P (skipn k l).
+Proof.
+  induction k as [|k IH]; intros l H; simpl; [exact H|].
+  destruct l; [constructor|]. inversion H; subst. apply IH. assumption.
+Qed.
+
+Lemma prune_ok n m u : Forall (fun e => vid (fst e)) m -> Forall vid u ->
+  Forall (fun e => vid (fst e)) (fst (prune n m u)) /\ Forall vid (snd (prune n m u)).
+Proof.
+  intros Hm Hu. unfold prune. destruct (Nat.ltb n (length m)); cbn [fst snd]; [|split; assumption].
+  split; [apply Forall_skipn; exact Hm|].
+  generalize (firstn (Nat.div (length m) 2) m). intro l. revert u Hu.
+  induction l as [|e l IH]; intros u Hu; simpl; [exact Hu|]. apply IH. apply bdel_Forall. exact Hu.
+Qed.
+
+Lemma prepare_ok b id ic n : builder_ok b -> builder_ok (fst (prepare b id ic n)).
 Proof.
   intros [Hu Hd]. unfold prepare. destruct (valid_id id) eqn:Hv; simpl; [|split; assumption].
   assert (Forall (fun e => vid (fst e)) (bset id 1 (dirmap b))) as Hs1.
-  { unfold bset. constructor; [exact Hv | apply bremove_Forall; exact Hd]. }
+  { unfold bset. apply Forall_app. split; [apply bremove_Forall; exact Hd | constructor; [exact Hv | constructor]]. }
+  assert (Forall vid (id :: unpacked b)) as Hu1 by (constructor; assumption).
+  pose proof (prune_ok n _ _ Hs1 Hu1) as [Hp1 Hp2].
   destruct (blookup id (dirmap b)) as [c|].
   - destruct (bmem id (unpacked b)).
     + cbn [dirmap unpacked live]. destruct (c + 1) eqn:Ec; [lia|]. rewrite <- Ec.
-      assert (Forall (fun e => vid (fst e)) (bset id (c + 1) (dirmap b))) as Hs.
-      { unfold bset. constructor; [exact Hv | apply bremove_Forall; exact Hd]. }
+      assert (Forall (fun e => vid (fst e)) (bupd id (c + 1) (dirmap b))) as Hs.
+      { apply bupd_Forall; [intros k' v' H; exact H | exact Hd]. }
       destruct (bmem (build_name id (c + 1)) (live b)); simpl; split; assumption.
     + destruct ic; simpl.
-      * cbn [dirmap unpacked live].
-        destruct (bmem (build_name id 1) (live b)); simpl; split; try assumption; constructor; assumption.
-      * split; [constructor; assumption | assumption].
+      * destruct (prune n (bset id 1 (dirmap b)) (id :: unpacked b)) as [m u]. simpl in Hp1, Hp2.
+        cbn [dirmap unpacked live].
+        destruct (bmem (build_name id 1) (live b)); simpl; split; assumption.
+      * split; assumption.
   - destruct (bmem id (unpacked b)); simpl; [split; assumption|].
     destruct ic; simpl.
-    + cbn [dirmap unpacked live].
-      destruct (bmem (build_name id 1) (live b)); simpl; split; try assumption; constructor; assumption.
-    + split; [constructor; assumption | assumption].
+    + destruct (prune n (bset id 1 (dirmap b)) (id :: unpacked b)) as [m u]. simpl in Hp1, Hp2.
+      cbn [dirmap unpacked live].
+      destruct (bmem (build_name id 1) (live b)); simpl; split; assumption.
+    + split; assumption.
+Qed.
+
+Lemma firstn_Forall {A} (P : A -> Prop) k : forall l, Forall P l -> Forall P (firstn k l).
+Proof.
+  induction k as [|k IH]; intros l H; simpl; [constructor|].
+  destruct l; [constructor|]. inversion H; subst. constructor; auto.
 Qed.
 
 Lemma assign_ok s j id : srv_ok s -> srv_ok (fst (assign s j id)).
 Proof.
-  intros (Hc & Hj & Hb1 & Hb2). unfold assign.
-  destruct (valid_id id) eqn:Hv; simpl; [|repeat split; assumption].
-  repeat split; try assumption. constructor; assumption.
+  intros (Hc & Hj & Hb). unfold assign.
+  destruct (valid_id id) eqn:Hv; simpl; [|split; [|split]; assumption].
+  split; [exact Hc|]. split; [constructor; assumption | exact Hb].
 Qed.
 
 Lemma submit_ok s j g : srv_ok s -> srv_ok (fst (submit s j g)).
 Proof.
-  intros (Hc & Hj & Hb1 & Hb2). unfold submit.
-  destruct (jlookup j (jobs s)) as [id|] eqn:E; simpl; [|repeat split; assumption].
-  destruct (bmem id (cached s)); simpl; [repeat split; assumption|].
-  destruct (valid_id id) eqn:Hv; simpl; [|repeat split; assumption].
-  destruct g; simpl; repeat split; try assumption. constructor; assumption.
+  intros (Hc & Hj & Hb). unfold submit.
+  destruct (jlookup j (jobs s)) as [id|] eqn:E; simpl; [|split; [|split]; assumption].
+  destruct (bmem id (cached s)); simpl; [split; [|split]; assumption|].
+  destruct (valid_id id) eqn:Hv; simpl; [|split; [|split]; assumption].
+  destruct (g =? 0); simpl; [split; [|split]; assumption|].
+  split; [|split; assumption]. cbn [cached]. unfold cache_store.
+  destruct (cap s =? 0); [constructor; assumption|]. apply firstn_Forall. constructor; assumption.
+Qed.
+
+Lemma finish_ok s nm : srv_ok s -> srv_ok (finish s nm).
+Proof. intros (Hc & Hj & Hb). split; [exact Hc|]. split; [exact Hj|]. exact Hb. Qed.
+
+Lemma with_held_ok s h : srv_ok s -> srv_ok (with_held s h).
+Proof. intros (Hc & Hj & Hb). split; [exact Hc|]. split; [exact Hj|]. exact Hb. Qed.
+
+Lemma run_begin_ok s j r : srv_ok s -> srv_ok (fst (run_begin s j r)).
+Proof.
+  intros (Hc & Hj & Hb). unfold run_begin.
+  destruct (jlookup j (jobs s)) as [id|] eqn:E; simpl; [|split; [|split]; assumption].
+  cbn [cached jobs bld with_jobs].
+  pose proof (prepare_ok (bld s) id (bmem id (cached s)) (length (cached s)) Hb) as Hp.
+  destruct (prepare (bld s) id (bmem id (cached s)) (length (cached s))) as [b' [nm|]] eqn:Ep; simpl in Hp.
+  - assert (srv_ok (with_bld (with_jobs s (jremove j (jobs s))) b')) as Hok.
+    { split; [exact Hc|]. split; [apply jremove_Forall; exact Hj|]. exact Hp. }
+    destruct (fold_left unpack1 (r_inputs r) _); [|exact Hok].
+    destruct (make_dirs _ _ _); [|exact Hok].
+    destruct (existsb _ (r_cwd r)); exact Hok.
+  - split; [exact Hc|]. split; [apply jremove_Forall; exact Hj|]. exact Hp.
 Qed.
 
 Lemma run_ok s j r : srv_ok s -> srv_ok (fst (run s j r)).
 Proof.
-  intros (Hc & Hj & Hb). unfold run.
-  destruct (jlookup j (jobs s)) as [id|] eqn:E; simpl; [|split; [|split]; assumption].
-  cbn [cached jobs bld].
-  pose proof (prepare_ok (bld s) id (bmem id (cached s)) Hb) as Hp.
-  destruct (prepare (bld s) id (bmem id (cached s))) as [b' [nm|]] eqn:Ep; simpl in Hp.
-  - assert (srv_ok {| cached := cached s; jobs := jremove j (jobs s);
-                      bld := fst (bstep b' (BFinish nm)) |}) as Hok.
-    { split; [exact Hc|]. split; [apply jremove_Forall; exact Hj|]. exact Hp. }
-    destruct (fold_left unpack1 (r_inputs r) (Some toolchain_tree)); [|exact Hok].
-    destruct (make_dirs _ _ _); [|exact Hok].
-    destruct (existsb _ (r_cwd r)); [exact Hok|].
-    destruct (collect _ _ _); exact Hok.
-  - split; [exact Hc|]. split; [apply jremove_Forall; exact Hj|]. exact Hp.
+  intro H. unfold run. pose proof (run_begin_ok s j r H) as Hb.
+  destruct (run_begin s j r) as [s' [| |nm|nm t1 t2]]; simpl in Hb; simpl; auto using finish_ok.
+  destruct (collect t2 (r_cwd r) (r_outs r)); simpl; auto using finish_ok.
+Qed.
+
+Lemma assign_submit_ok s j r : srv_ok s -> srv_ok (fst (fst (assign_submit s j r))).
+Proof.
+  intro H. unfold assign_submit.
+  pose proof (assign_ok s j (r_id r) H) as H1. destruct (assign s j (r_id r)) as [s1 a]. simpl in H1.
+  destruct a; simpl; auto; pose proof (submit_ok s1 j (r_genuine r) H1) as H2;
+    destruct (submit s1 j (r_genuine r)); exact H2.
 Qed.
 
 Lemma do_job_ok s j r : srv_ok s -> srv_ok (fst (do_job s j r)).
 Proof.
-  intro H. unfold do_job.
-  pose proof (assign_ok s j (r_id r) H) as H1. destruct (assign s j (r_id r)) as [s1 a]. simpl in H1.
-  assert (srv_ok (fst (match a with AReady => (s1, SSkipped) | _ => submit s1 j (r_genuine r) end))) as H2.
-  { destruct a; simpl; auto using submit_ok. }
-  destruct (match a with AReady => (s1, SSkipped) | _ => submit s1 j (r_genuine r) end) as [s2 sb]. simpl in H2.
+  intro H. unfold do_job. pose proof (assign_submit_ok s j r H) as H2.
+  destruct (assign_submit s j r) as [[s2 a] sb]. simpl in H2.
   destruct (r_run r); [|exact H2].
   pose proof (run_ok s2 j r H2) as H3. destruct (run s2 j r) as [s3 [[[rr tg] sn] outs]]. exact H3.
 Qed.
 
-Lemma do_jobs_ok rs : forall s j, srv_ok s -> Forall (fun x => srv_ok (snd x)) (do_jobs s j rs).
+Lemma do_start_ok s j k r : srv_ok s -> srv_ok (fst (do_start s j k r)).
 Proof.
-  induction rs as [|r rs IH]; intros s j H; simpl; [constructor|].
-  pose proof (do_job_ok s j r H) as H1. destruct (do_job s j r) as [s' o]. simpl in H1.
-  constructor; [exact H1 | apply IH; exact H1].
+  intro H. unfold do_start. pose proof (assign_submit_ok s j r H) as H2.
+  destruct (assign_submit s j r) as [[s2 a] sb]. simpl in H2.
+  destruct (r_run r); [|exact H2].
+  pose proof (run_begin_ok s2 j r H2) as Hb.
+  destruct (run_begin s2 j r) as [s' [| |nm|nm t1 t2]]; simpl in Hb; simpl; auto using finish_ok, with_held_ok.
 Qed.
 
-Lemma server0_ok : srv_ok server0.
+Lemma do_release_ok s k : srv_ok s -> srv_ok (fst (do_release s k)).
+Proof.
+  intro H. unfold do_release. destruct (take_held k (held s)) as [[h rest]|]; [|exact H].
+  destruct (collect _ _ _); simpl; auto using finish_ok, with_held_ok.
+Qed.
+
+Lemma do_ops_ok ops : forall s j, srv_ok s -> Forall (fun x => srv_ok (snd x)) (do_ops s j ops).
+Proof.
+  induction ops as [|o ops IH]; intros s j H; simpl; [constructor|].
+  destruct o as [r|k r|k].
+  - pose proof (do_job_ok s j r H) as H1. destruct (do_job s j r) as [s' ob]. simpl in H1.
+    constructor; [exact H1 | apply IH; exact H1].
+  - pose proof (do_start_ok s j k r H) as H1. destruct (do_start s j k r) as [s' ob]. simpl in H1.
+    constructor; [exact H1 | apply IH; exact H1].
+  - pose proof (do_release_ok s k H) as H1. destruct (do_release s k) as [s' ob]. simpl in H1.
+    constructor; [exact H1 | apply IH; exact H1].
+Qed.
+
+Lemma server0_ok c : srv_ok (server0 c).
 Proof. repeat split; constructor. Qed.
 
-(* a job root handed to a job is builds/<valid id>-<n>/target *)
-Lemma run_target s j r s' rr tg sn outs : srv_ok s -> run s j r = (s', (rr, Some tg, sn, outs)) ->
-  exists id k, valid_id id = true /\ tg = push (push s_builds (build_name id k)) s_target.
+(* a job root handed to a job is builds/<valid id>-<k>/target, and no job that is still running has it *)
+Lemma run_begin_fresh s j r s' nm t1 t2 : run_begin s j r = (s', BRunning nm t1 t2) ->
+  (exists id k, valid_id id = true /\ nm = build_name id k)
+  /\ ~ In nm (live (bld s)) /\ live (bld s') = nm :: live (bld s).
 Proof.
-  intros Hok. unfold run. destruct (jlookup j (jobs s)) as [id|] eqn:E; [|discriminate].
-  cbn [cached jobs bld].
-  destruct (prepare (bld s) id (bmem id (cached s))) as [b' [nm|]] eqn:Ep; [|discriminate].
-  apply prepare_spec in Ep as (Hv & _ & _ & k & -> & _).
-  intro H. exists id, k. split; [exact Hv|].
-  destruct (fold_left unpack1 (r_inputs r) (Some toolchain_tree)); [|discriminate].
+  unfold run_begin. destruct (jlookup j (jobs s)) as [id|] eqn:E; [|discriminate].
+  cbn [cached jobs bld with_jobs].
+  destruct (prepare (bld s) id (bmem id (cached s)) (length (cached s))) as [b' [nm'|]] eqn:Ep; [|discriminate].
+  apply prepare_spec in Ep as (Hv & Hn & Hl & k & -> & _).
+  destruct (fold_left unpack1 (r_inputs r) _); [|discriminate].
   destruct (make_dirs _ _ _); [|discriminate].
   destruct (existsb _ (r_cwd r)); [discriminate|].
-  destruct (collect _ _ _); inversion H; reflexivity.
+  intro H. inversion H; subst. cbn [bld with_bld with_jobs]. eauto 6.
+Qed.
+
+(* what a job finds in its root and what is returned for it depend on its own request and its toolchain only,
+   not on the server's history (under the overlay assumption built into the model: every job starts from the
+   unpacked toolchain) *)
+Lemma run_view_independent s j s' j' r id id' s1 rr tg sn outs s1' rr' tg' sn' outs' :
+  jlookup j (jobs s) = Some id -> jlookup j' (jobs s') = Some id' -> kind_of s id = kind_of s' id' ->
+  run s j r = (s1, (rr, Some tg, sn, outs)) ->
+  run s' j' r = (s1', (rr', Some tg', sn', outs')) ->
+  rr = rr' /\ sn = sn' /\ outs = outs'.
+Proof.
+  intros E E' Hk. unfold run, run_begin. rewrite E, E'.
+  unfold kind_of in *. cbn [cached jobs bld with_jobs kinds].
+  rewrite Hk.
+  destruct (prepare (bld s) id _ _) as [b1 [nm|]]; [|discriminate].
+  destruct (prepare (bld s') id' _ _) as [b1' [nm'|]]; [|discriminate].
+  destruct (fold_left unpack1 (r_inputs r) _) as [t0|]; [|discriminate].
+  destruct (make_dirs t0 (r_cwd r) (r_outs r)) as [t1|]; [|discriminate].
+  destruct (existsb (N.eqb 0) (r_cwd r)); [discriminate|].
+  destruct (collect _ (r_cwd r) (r_outs r)) as [o|]; intros H H'; inversion H; inversion H'; subst; auto.
 Qed.
 
 (* ------------------------------------------------------------------ the statements pinned in Properties/C19.v *)
@@ -1104,23 +1218,4 @@ Lemma toolchain_untouched lk0 lk1 dir id n cwd outs effs start e :
 Proof.
   intros H He. pose proof (job_confined lk0 lk1 dir id n cwd outs effs start e H He) as [_ Hj].
   destruct e; [exact I | apply Hj | apply Hj].
-Qed.
-
-(* what a job finds in its root and what is returned for it depend on its own request only, not on the server's
-   history (under the overlay assumption built into the model: every job starts from the unpacked toolchain) *)
-Lemma run_view_independent s j s' j' r s1 rr tg sn outs s1' rr' tg' sn' outs' :
-  run s j r = (s1, (rr, Some tg, sn, outs)) ->
-  run s' j' r = (s1', (rr', Some tg', sn', outs')) ->
-  rr = rr' /\ sn = sn' /\ outs = outs'.
-Proof.
-  unfold run.
-  destruct (jlookup j (jobs s)) as [id|]; [|discriminate].
-  destruct (jlookup j' (jobs s')) as [id'|]; [|discriminate].
-  cbn [cached jobs bld].
-  destruct (prepare (bld s) id (bmem id (cached s))) as [b1 [nm|]]; [|discriminate].
-  destruct (prepare (bld s') id' (bmem id' (cached s'))) as [b1' [nm'|]]; [|discriminate].
-  destruct (fold_left unpack1 (r_inputs r) (Some toolchain_tree)) as [t0|]; [|discriminate].
-  destruct (make_dirs t0 (r_cwd r) (r_outs r)) as [t1|]; [|discriminate].
-  destruct (existsb (N.eqb 0) (r_cwd r)); [discriminate|].
-  destruct (collect _ (r_cwd r) (r_outs r)) as [o|]; intros H H'; inversion H; inversion H'; subst; auto.
 Qed.
